@@ -406,6 +406,51 @@ def random_histories(rp, n_hist=120, seed=20240917):
     return
 
 
+def intake_triage(rp):
+    """the real `for task in data:` statement of _schedule_incoming on one bulk of every
+    kind of task: each task is failed, queued for placement here, or set aside for its
+    raptor master - exactly one of the three"""
+    import collections
+    from .builders import exec_fragment, Stub
+    from radical.pilot.agent.scheduler.base import AgentSchedulingComponent as ASC
+    import radical.pilot.agent.scheduler.base as mod
+    c = object.__new__(ASC)
+    c._log, c._prof = Stub(), Stub()
+    failed = []
+    c._fail_task = lambda t, e, d: failed.append(t['uid'])
+    c._set_tuple_size = lambda t: t.__setitem__('tuple_size', (1, 1, 0.0))
+    def mk(uid, **kw):
+        d = dict(ranks=1, cores_per_rank=1, gpus_per_rank=0.0, priority=0, mode='task.executable', raptor_id=None)
+        seen = kw.pop('raptor_seen', None)
+        d.update(kw)
+        t = {'uid': uid, 'description': d}
+        if seen is not None: t['raptor_seen'] = seen
+        return t
+    data = [mk('plain'), mk('prio', priority=2), mk('bad', ranks=0), mk('rap', raptor_id='m1', mode='task.function'),
+            mk('rap-seen', raptor_id='m1', mode='task.function', raptor_seen=True),
+            mk('worker', raptor_id='m1', mode=mod.RAPTOR_WORKER), mk('rap-any', raptor_id='*', mode='task.eval', priority=1)]
+    env = dict(self=c, data=data, to_schedule=collections.defaultdict(list), to_raptor=collections.defaultdict(list),
+               RAPTOR_WORKER=mod.RAPTOR_WORKER, ValueError=ValueError)
+    try:
+        exec_fragment(rp, 'agent/scheduler/base.py', 'AgentSchedulingComponent._schedule_incoming', 'for task in data:', env)
+    except Exception as e:
+        return ('the intake statement raised %r' % e, dict(bulk=[t['uid'] for t in data]))
+    here = {t['uid']: p for p, ts in env['to_schedule'].items() for t in ts}
+    n_here = collections.Counter(t['uid'] for ts in env['to_schedule'].values() for t in ts)
+    rap = collections.Counter(t['uid'] for ts in env['to_raptor'].values() for t in ts)
+    want = dict(plain='here', prio='here', bad='failed', rap='raptor', worker='here')
+    want['rap-seen'] = 'here'; want['rap-any'] = 'raptor'
+    for uid, w in want.items():
+        got = [k for k, n in (('here', n_here[uid]), ('raptor', rap[uid]), ('failed', failed.count(uid))) for _ in range(n)]
+        if got != [w]:
+            return ('task %s of the bulk: expected %s, got %s (queued for placement %d times, set aside for raptor %d times, failed %d times)'
+                    % (uid, w, got or 'nothing', n_here[uid], rap[uid], failed.count(uid)),
+                    dict(bulk=[dict(uid=t['uid'], **{k: t['description'][k] for k in ('ranks', 'priority', 'mode', 'raptor_id')}) for t in data]))
+    if here.get('prio') != 2 or here.get('plain') != 0:
+        return ('tasks are queued under priorities %s, described priorities: plain 0, prio 2' % here, dict(bulk=[t['uid'] for t in data]))
+    return None
+
+
 KEYS = ['agent/scheduler/base.py:AgentSchedulingComponent._schedule_incoming#cancel',
         'agent/scheduler/base.py:AgentSchedulingComponent._schedule_incoming#intake',
         'agent/scheduler/base.py:AgentSchedulingComponent._schedule_incoming#place',
@@ -430,6 +475,9 @@ def sched_histories(case, rp, known=None):
         kf = json.load(open(os.path.join(os.path.dirname(os.path.dirname(os.path.abspath(__file__))), 'known_findings.json')))
         known = [f['case'].split(':', 1)[1] for f in kf.get('findings', [])
                  if f.get('status') != 'fixed' and f.get('bounded') == 'sched-histories' and f.get('case', '').startswith('directed:')]
+    p = intake_triage(rp)
+    if p:
+        return dict(confirmed=True, detail=p[0], input=p[1], found_by='native intake triage of one bulk (real loop statement)')
     n = 0
     for name, probs, hist in directed(rp):
         n += 1
